@@ -80,6 +80,8 @@ var c02Knobs = []c02Knob{
 	{"pn1", func(s *quic.QUICSpec, b string) { s.InitialPacketSpec.InitPacketNumber = 1 }},
 	{"pn2", func(s *quic.QUICSpec, b string) { s.InitialPacketSpec.InitPacketNumber = 2 }},
 	{"pn200", func(s *quic.QUICSpec, b string) { s.InitialPacketSpec.InitPacketNumber = 200 }},
+	{"pn1000", func(s *quic.QUICSpec, b string) { s.InitialPacketSpec.InitPacketNumber = 1000 }},
+	{"pn70000", func(s *quic.QUICSpec, b string) { s.InitialPacketSpec.InitPacketNumber = 70000 }},
 	{"pnlen-nil", func(s *quic.QUICSpec, b string) {
 		s.InitialPacketSpec.InitPacketNumberLengths = nil
 		s.InitialPacketSpec.InitPacketNumberLength = 0
@@ -456,6 +458,27 @@ func TestVerifC02(t *testing.T) {
 				}
 			}
 			return cfgs, fmt.Sprintf("every built-in QUICID x every one-knob deviation (%d knobs) x servers %v of {default, retry, v2-preferred, few-streams, v2-only, v2-only-retry} x dial histories %v on ONE reused spec value", len(c02Knobs)-1, servers, hist)
+		}),
+		c02Part(t, "knobs-x-faults", func(e explore.Env) ([]c02Config, string) {
+			// every knob with a loss early in dial 1: what a knob pins for the first flight
+			// (numbering, lengths, sizes, layout) must not break the retransmissions
+			slots := []sim.Slot{{Dir: sim.C2S, Idx: 0}, {Dir: sim.S2C, Idx: 0}, {Dir: sim.C2S, Idx: 1}}
+			fates := []sim.Fate{sim.Drop}
+			if e.Thorough() {
+				slots = append(slots, sim.Slot{Dir: sim.S2C, Idx: 1}, sim.Slot{Dir: sim.C2S, Idx: 2}, sim.Slot{Dir: sim.S2C, Idx: 2})
+				fates = []sim.Fate{sim.Drop, sim.Delay, sim.FlipMid}
+			}
+			var cfgs []c02Config
+			for _, b := range c02SpecBases() {
+				for k := 1; k < len(c02Knobs); k++ {
+					for _, sl := range slots {
+						for _, f := range fates {
+							cfgs = append(cfgs, c02Config{Base: b, Knobs: []int{k}, Server: 0, History: "seq3", Seed: seed(e), Faults: sim.FaultMap{{Slot: sl, Fate: f}}})
+						}
+					}
+				}
+			}
+			return cfgs, fmt.Sprintf("every built-in QUICID x every one-knob deviation (%d knobs) x 1 fault %v on one of the datagrams %v of dial 1, 3 sequential dials on ONE reused spec value", len(c02Knobs)-1, fates, slots)
 		}),
 		c02Part(t, "servers-x-bases", func(e explore.Env) ([]c02Config, string) {
 			var cfgs []c02Config
